@@ -176,6 +176,8 @@ def run(res):
         text = unhx(f[1]).decode("utf-8")
         i = int(f[4][1:])
         want = textgen.prefix_bytes(text, i)
+        if o == "PANIC":
+            return "byte_offset_of panics for character %d of the text (line %s, column %s)" % (i, f[2], f[3])
         if int(o) != want:
             return ("character %d of the text (line %s, column %s) starts at byte %d but byte_offset_of returns %s"
                     % (i, f[2], f[3], want, o))
